@@ -146,7 +146,7 @@ def corpus():
         st += [["ws", c], J(c, "pr"), ["send", c, {"type": "join", "kind": "leave", "group": "g"}], J(c, "pr"), ["send", c, {"type": "join", "kind": "leave", "group": "g"}]]
     st += [S, S]
     # (pipelined: the rights in a joined message are read when it is sent, possibly after the leave; no C08 oracle)
-    out.append({"name": "F13-join-leave-pipelined", "fixture": fixture(0, 0), "expect": {}, "steps": st})
+    out.append({"name": "F13-join-leave-pipelined", "fixture": fixture(0, 0), "expect": {}, "steps": st, "pipelined": True})
     # F14: redirect + matching user
     out.append({"name": "F14-redirect-with-user", "fixture": fixture(0, 0, extra_g={"redirect": "https://example.org/"}), "expect": {}, "steps": [
         ["ws", "A"], J("A", "op"), S, ["ws", "B"], J("B", "pr"), S, ["closews", "A"], S, ["ws", "C"], J("C", "pr"), S,
@@ -157,6 +157,28 @@ def corpus():
         ["ws", "A"], J("A", "op"), S, ["ws", "B"], J("B", "op"), S, ["send", "A", {"type": "useraction", "kind": "unop", "dest": "B"}], S,
         ["send", "A", {"type": "useraction", "kind": "shutup", "dest": "B"}], S,
         ["ws", "C"], J("C", "op", "h"), S, ["ws", "D"], J("D", "op"), S, S]})
+    # every claim about source / username by a member that may chat (spoofs close the offender only)
+    st3 = [["ws", "A"], J("A", "op"), S, ["ws", "B"], J("B", "pr"), S]
+    k = 0
+    for cs in ("own", "other", "none"):
+        for cu in ("own", "other", "none", "member"):
+            for t in ("chat", "usermessage"):
+                k += 1
+                m = {"type": t, "value": "c%d" % k, "id": "c%d" % k}
+                if cs == "own":
+                    m["source"] = "B"
+                elif cs == "other":
+                    m["source"] = "A"
+                if cu == "own":
+                    m["username"] = "pr"
+                elif cu == "other":
+                    m["username"] = "mallory"
+                elif cu == "member":
+                    m["username"] = "op"
+                st3 += [["send", "B", m], S]
+                if cs == "other" or cu in ("other", "member"):
+                    st3 += [["ws", "B"], J("B", "pr"), S]
+    out.append({"name": "spoof-matrix", "fixture": fixture(0, 0), "expect": expect_table(0, 0), "steps": st3 + [S]})
     # F11: an operator of h edits / lists a token of g
     tokfile = json.dumps({"token": "tokg1", "group": "g", "permissions": ["present"], "expires": "2099-01-01T00:00:00Z", "username": "tu"}) + "\n"
     out.append({"name": "F11-edittoken-cross-group", "fixture": fixture(0, 0, extra_files={"data/var/tokens.jsonl": tokfile}), "expect": expect_table(0, 0), "steps": [
@@ -179,6 +201,25 @@ def corpus():
            ["send", "D", {"type": "join", "kind": "leave", "group": "g"}], S, J("D", "ob"), S,
            ["send", "A", {"type": "groupaction", "kind": "clearchat"}], S,
            ["send", "C", {"type": "join", "kind": "leave", "group": "g"}], S, J("C", "ms"), S, S]
+    # joins racing with broadcast chats on a full history, and with clearchat: the replay must be a gap-free in-order run
+    st2 = [["ws", "A"], J("A", "op"), S]
+    for i in range(50):
+        st2.append(["send", "A", {"type": "chat", "source": "A", "value": "h%d" % i, "id": "h%d" % i}])
+    st2.append(S)
+    nxt = 50
+    for c in "BCD":
+        st2.append(["ws", c])
+    for rnd in range(4):
+        for k in range(120):
+            st2.append(["send", "A", {"type": "chat", "source": "A", "value": "h%d" % nxt, "id": "h%d" % nxt}])
+            nxt += 1
+            c = "BCD"[k % 3]
+            if k % 6 < 3:
+                st2.append(["send", c, {"type": "join", "kind": "join", "group": "g", "username": "guest-" + c, "password": "wp", "data": {"racing": True}}])
+            else:
+                st2.append(["send", c, {"type": "join", "kind": "leave", "group": "g"}])
+        st2.append(S)
+    out.append({"name": "history-replay-racing-with-chats", "fixture": fixture(0, 0), "expect": {}, "steps": st2, "pipelined": True})
     out.append({"name": "history-bound-and-clearchat", "fixture": fixture(0, 0), "expect": expect_table(0, 0), "steps": st})
     return out
 
@@ -221,6 +262,7 @@ def run(rep, w, tier, pid, replay=None, extra_behs=None):
         if e["ev"] == "New":
             bi += 1
             e["expect"] = behs[bi].get("expect", {}) if bi < len(behs) else {}
+            e["pipelined"] = 1 if (bi < len(behs) and behs[bi].get("pipelined")) else 0
     t2 = os.path.join(w, "trace_signalling.ndjson")
     with open(t2, "w") as f:
         for e in events:
